@@ -267,6 +267,8 @@ class Link(object):
         cap = (n, n, n, 1, 7, 23, 24, 25, max(1, n // 2), 0)[c]
         if self.short == 'tiny':
             cap = (1, 1, 2, 3, 7, 23, 24, 25, n, 0)[c]
+        if self.short == 'pos' and cap == 0:
+            cap = 1
         if cap == 0:
             self.zero_caps = getattr(self, 'zero_caps', 0) + 1
         return min(n, cap)
